@@ -131,14 +131,83 @@ def _field_stores(prog, field: str) -> List[Tuple[FuncInfo, ast.AST, ast.AST]]:
     return out
 
 
+def _tuple_prov_term(it, t, conds, depth: int = 0) -> bool:
+    """Is term t of tuple provenance under path condition `conds`?"""
+    from ..symx import NONE as SNONE
+    from ..symx import flatten_conds
+    if depth > 10:
+        return False
+    k = t[0]
+    if k == "tuple":
+        return True
+    if k == "call" and t[1] == ("name", "tuple"):
+        return True
+    if k == "bin" and t[1] == "Add":
+        return _tuple_prov_term(it, t[2], conds, depth + 1) and _tuple_prov_term(it, t[3], conds, depth + 1)
+    if k == "ifexp":
+        fc = flatten_conds(conds)
+        if (t[1], True) in fc:
+            return _tuple_prov_term(it, t[2], conds, depth + 1)
+        if (t[1], False) in fc:
+            return _tuple_prov_term(it, t[3], conds, depth + 1)
+        return _tuple_prov_term(it, t[2], tuple(conds) + ((t[1], True),), depth + 1) and \
+            _tuple_prov_term(it, t[3], tuple(conds) + ((t[1], False),), depth + 1)
+    if k == "attr" and t[2] == "_precomputed_data":
+        return True                  # the field is only ever assigned a tuple (its own instance of the rule)
+    if k == "sub" and t[2][0] == "slice":
+        return _tuple_prov_term(it, t[1], conds, depth + 1)
+    if t == SNONE:
+        # a None alternative excluded by an `is not None` guard on the same value is handled by the caller's conditions
+        return False
+    return False
+
+
 def _rule_a(ctx) -> None:
+    from ..sites2 import interp_of
+    from ..symx import NONE as SNONE
+    from ..symx import flatten_conds, show
     prog = ctx.prog
-    for fld in ("_underlying", "_precomputed_data"):
-        for f, node, val in _field_stores(prog, fld):
-            ok = _is_tuple_prov(prog, f, val, cfg_of(f).enclosing_stmt_node(prog, node))
-            ctx.ob("a.tuple-storage", f, f"store:{fld}:{_ordinal(ctx, f, fld)}", ok,
-                   f"{fld} <- {short(val, 60)}", node,
-                   message=f"`{fld}` is assigned `{short(val, 80)}`, which is not of tuple provenance: storage could be "
+    for f in list(prog.functions.values()):
+        if isinstance(f.node, ast.Lambda) or f.parent:
+            continue
+        if not any(isinstance(n, ast.Attribute) and n.attr in ("_underlying", "_precomputed_data") and isinstance(n.ctx, ast.Store)
+                   for n in ast.walk(f.node)) and "__setattr__" not in ast.dump(f.node)[:0]:
+            if not any(isinstance(n, ast.Call) and short(n.func) in ("object.__setattr__", "setattr") for n in ast.walk(f.node)):
+                continue
+        it = interp_of(prog, f)
+        for e in it.events:
+            fld = None
+            val = None
+            if e.kind == "store" and e.term[0] == "attr" and e.term[2] in ("_underlying", "_precomputed_data"):
+                fld, val = e.term[2], e.value
+            elif e.kind == "call" and show(e.term[1], it) in ("object.__setattr__", "setattr") and len(e.term[2]) == 3 \
+                    and e.term[2][1][0] == "const" and e.term[2][1][2] in ("_underlying", "_precomputed_data"):
+                fld, val = e.term[2][1][2], e.term[2][2]
+            if fld is None:
+                continue
+            owner = prog.functions.get(e.func) or f
+            # a value that may be None is fine where the store is guarded by `<value> is not None`
+            fc = flatten_conds(e.conds)
+            alts = []
+
+            def collect(t, conds):
+                if t[0] == "ifexp":
+                    collect(t[2], conds + ((t[1], True),))
+                    collect(t[3], conds + ((t[1], False),))
+                else:
+                    alts.append((t, conds))
+            collect(val, ())
+            ok = True
+            for t, cnds in alts:
+                if t == SNONE and ((("cmp", "Is", val, SNONE), False) in fc):
+                    continue
+                if any((c, not p) in fc for c, p in flatten_conds(cnds)):
+                    continue            # alternative excluded by the path condition
+                if not _tuple_prov_term(it, t, e.conds):
+                    ok = False
+            ctx.ob("a.tuple-storage", owner, f"store:{fld}:{_ordinal(ctx, owner, fld)}", ok,
+                   f"{fld} <- {show(val, it)[:60]}", e.node,
+                   message=f"`{fld}` is assigned `{show(val, it)[:80]}`, which is not of tuple provenance: storage could be "
                            f"a mutable sequence shared between vectors")
     # computed field names would defeat the rule: report as analysis obstacle
     for f in prog.functions.values():
@@ -227,46 +296,74 @@ def _rule_b(ctx) -> None:
     ctx.ob("b.who-stores", "package", "storers", not extra, f"functions storing _underlying: {sorted(storers)}",
            message=f"unexpected function(s) store `_underlying`: {sorted(extra)} - every storage swap must go through the "
                    f"audited sites (alias bracket, fingerprint invalidation, fresh columns)")
-    # Table.__init__: the tuple handed to Vector.__init__ holds only fresh columns
+    # Table.__init__: the tuple handed to Vector.__init__ holds only fresh columns (symx: helpers in line, conditional exprs)
+    from ..sites2 import comp_parts, interp_of, leaves, strip_seq
+    from ..symx import show
     f = prog.func("table.Table.__init__")
-    cfg = cfg_of(f)
-    sup = [n for n in cfg.stmt_nodes() if isinstance(n.ast, ast.Expr) and isinstance(n.ast.value, ast.Call)
-           and isinstance(n.ast.value.func, ast.Attribute) and n.ast.value.func.attr == "__init__"
-           and isinstance(n.ast.value.func.value, ast.Call) and isinstance(n.ast.value.func.value.func, ast.Name)
-           and n.ast.value.func.value.func.id == "super"]
-    if len(sup) != 1 or not sup[0].ast.value.args:
+    it = interp_of(prog, f)
+    sup = [e for e in it.events if e.kind == "call" and e.term[1][0] == "attr" and e.term[1][2] == "__init__"
+           and e.term[1][1][0] == "call" and e.term[1][1][1] == ("name", "super")]
+    if len(sup) != 1 or not sup[0].term[2]:
         raise AnalysisError("Table.__init__: the super().__init__(columns, ...) call was not found")
-    arg = sup[0].ast.value.args[0]
-    defs = reaching_defs(cfg, arg.id, sup[0]) if isinstance(arg, ast.Name) else [arg]
-    bad = [d for d in defs if not _fresh_column_tuple(d)]
+    data = sup[0].term[2][0]
+    bad = []
+    for d in leaves(data):
+        ds = strip_seq(it, d)
+        if ds[0] == "tuple" and not ds[1]:
+            continue
+        cp = comp_parts(it, d)
+        if cp is not None and len(cp[0]) == 1 and not cp[1]:
+            (L,), _, v, ev = cp
+            el = ("elem", it.loops[L].iter, L)
+            if v == ("call", ("attr", el, "copy"), (), ()):
+                continue
+        bad.append(d)
     ctx.ob("b.fresh-columns", f, "columns-at-construction", not bad,
-           f"column tuple reaching Vector.__init__: {[short(d, 50) if not isinstance(d, str) else d for d in defs]}", sup[0].ast,
+           f"column tuple reaching Vector.__init__: {show(data, it)[:80]}", sup[0].node,
            message="a Table can be constructed over column objects it does not own: "
-                   + "; ".join(f"`{short(d, 70) if not isinstance(d, str) else d}` reaches the storage" for d in bad)
+                   + "; ".join(f"`{show(d, it)[:70]}` reaches the storage" for d in bad)
                    + " (every input column must be snapshotted with .copy())")
     # Table._replace_column: the object put into the column list is fresh
     f = prog.func("table.Table._replace_column")
-    cfg = cfg_of(f)
-    d = Defs(f)
-    lists = [n for n, lst in d.assigns.items()
-             if any(v is not None and isinstance(v, ast.Call) and isinstance(v.func, ast.Name) and v.func.id == "list"
-                    and v.args and isinstance(v.args[0], ast.Attribute) and v.args[0].attr == "_underlying" for v, _, _ in lst)]
+    it = interp_of(prog, f)
+    S = ("param", f.params[0])
+    und = ("attr", S, "_underlying")
     n_stores = 0
-    for node in cfg.stmt_nodes():
-        st = node.ast
-        if isinstance(st, ast.Assign) and len(st.targets) == 1 and isinstance(st.targets[0], ast.Subscript) \
-                and isinstance(st.targets[0].value, ast.Name) and st.targets[0].value.id in lists:
+
+    def fresh(t) -> bool:
+        return t[0] == "call" and ((t[1][0] == "attr" and t[1][2] == "copy" and not t[2]) or t[1] in (("name", "Vector"), ("name", "Table")))
+    for e in it.events:
+        if e.kind == "store" and e.term[0] == "sub" and e.term[1][0] == "obj" and it.objs[e.term[1][1]].kind == "list" \
+                and it.objs[e.term[1][1]].init == (und,):
             n_stores += 1
-            v = st.value
-            defs = reaching_defs(cfg, v.id, node) if isinstance(v, ast.Name) else [v]
-            bad = [x for x in defs if not _fresh_vector_expr(x)]
-            ctx.ob("b.fresh-columns", f, "replacement-column", not bad,
-                   f"replacement column: {[short(x, 50) if not isinstance(x, str) else x for x in defs]}", st,
+            badv = [x for x in leaves(e.value) if not fresh(x)]
+            ctx.ob("b.fresh-columns", f, "replacement-column", not badv,
+                   f"replacement column: {show(e.value, it)[:60]}", e.node,
                    message="the table stores the caller's vector object itself as a column ("
-                           + "; ".join(short(x, 60) if not isinstance(x, str) else x for x in bad)
+                           + "; ".join(show(x, it)[:60] for x in badv)
                            + "): later writes through either handle are seen by the other")
     if n_stores == 0:
+        # tuple-splicing form: self._underlying[:i] + (new,) + self._underlying[i+1:]
+        for e in it.events:
+            if e.kind == "store" and e.term == und:
+                singles = [x for t in leaves(e.value) for x in _spliced_singletons(t)]
+                if singles:
+                    n_stores += 1
+                    badv = [x for x in singles if not fresh(x)]
+                    ctx.ob("b.fresh-columns", f, "replacement-column", not badv, "replacement column spliced into the tuple", e.node,
+                           message="the table stores the caller's vector object itself as a column ("
+                                   + "; ".join(show(x, it)[:60] for x in badv) + ")")
+    if n_stores == 0:
         raise AnalysisError("Table._replace_column: no store into the column list found")
+
+
+def _spliced_singletons(t) -> list:
+    """(x,) parts of a tuple concatenation a + (x,) + b"""
+    if t[0] == "bin" and t[1] == "Add":
+        return _spliced_singletons(t[2]) + _spliced_singletons(t[3])
+    if t[0] == "tuple" and len(t[1]) == 1:
+        return [t[1][0]]
+    return []
 
 
 def _fresh_vector_expr(e) -> bool:
